@@ -193,7 +193,10 @@ func runC13(c *eng.Ctx, thorough bool) {
 func c13Delegating(c *eng.Ctx, t, m string, f *ssa.Function, deleg []ssa.CallInstruction, errInReply bool) {
 	params := f.Params[1:] // without receiver
 	keyAllowed := []string{`^param:`, `^field:[A-Za-z]+\.[A-Za-z]+$`, `^call:` + reQuote(t) + `\.`,
-		`^call:.*\.(ExpandKey|expandKey|encryptPath|ensureTailingSlash|sanitizePath)$`}
+		`^call:.*\.(ExpandKey|expandKey|encryptPath|ensureTailingSlash|sanitizePath)$`,
+		// the same key transforms called through a method value bound earlier (expand := s.ExpandKey; expand(k))
+		`^call:closure:` + reQuote(t) + `\.[A-Za-z]+\$bound$`,
+		`^call:closure:.*\.(ExpandKey|expandKey|encryptPath|ensureTailingSlash|sanitizePath)\$bound$`}
 
 	for _, cl := range deleg {
 		cc := cl.Common()
